@@ -46,7 +46,8 @@ ASSUMPTIONS = [
     "key/compress/overwrite are passed for .npz targets only",
 ]
 
-FNAMES = {"npy": ["stats.npy"], "npz": ["stats.npz"], "raw": ["stats.bin", "stats", "stats.dat", "cmvn.NPY", "Cmvn.Npz", "stats.npy.bak"]}
+FNAMES = {"npy": ["stats.npy", "stats.npy", "a.b.npy", ".npy"], "npz": ["stats.npz", "stats.npz", "a.b.npz", ".npz"],
+          "raw": ["stats.bin", "stats", "stats.dat", "cmvn.NPY", "Cmvn.Npz", "stats.npy.bak", ".stats"]}
 FOREIGN = ["foo", "bar", "arr_0", "arr_1", "arr_3"]
 USER_KEYS = [None, None, None, "stats", "k", "arr_7", "1034", "0", "007"]  # (all-digit names are names, not positions)
 
@@ -58,9 +59,14 @@ def foreign_value(key):
     return (np.arange(2 * n, dtype=np.float64).reshape(2, n) - 1.5) * 0.25
 
 
-def read_archive(path):
-    with np.load(path) as z:
-        return {k: np.array(z[k]) for k in z.files}
+def read_archive(path, written_by_us=False):
+    try:
+        with np.load(path) as z:
+            return {k: np.array(z[k]) for k in z.files}
+    except Exception as e:  # noqa
+        if written_by_us:
+            raise
+        raise Violation("the .npz target %r is not a readable numpy archive after save (%s: %s)" % (os.path.basename(path), type(e).__name__, str(e)[:80]))
 
 
 def first_unused(keys):
@@ -180,7 +186,7 @@ def reload_cases(kind):
     def cases(draw):
         n_ops = draw(st.sampled_from([1, 2, 3, 3, 4, 4, 5, 6]))
         # between the saves of the judged object: more data, or ANOTHER object (other statistics) writing to the same path
-        ops = [draw(st.one_of(_save_ops(kind), _save_ops(kind), _acc_ops(), st.just({"op": "other"}))) for _ in range(n_ops - 1)]
+        ops = [draw(st.one_of(_save_ops(kind), _save_ops(kind), _acc_ops(), st.sampled_from([{"op": "other"}, {"op": "other", "wider": True}]))) for _ in range(n_ops - 1)]
         ops.append(draw(_save_ops(kind)))
         return {
             "kind": kind,
@@ -256,7 +262,11 @@ def check_reload(case):
                 # a second writer: another Standardize object with different statistics saves to the same path, with the
                 # arguments of the judged object's last save; the judged object's next save must put its own statistics back
                 b = Standardize(norm_var=nv)
-                b.accumulate(data.astype(np.float64) * 3.0 + 100.0, axis=-1)
+                wide = data.astype(np.float64) * 3.0 + 100.0
+                if op.get("wider"):
+                    # ... of a LARGER feature dimension: the file it leaves behind is longer than the judged object's
+                    wide = np.hstack([wide] * 3)
+                b.accumulate(wide, axis=-1)
                 call("save by another object to the same path", b.save, path, **last_kw)
                 if kind == "npz":
                     before = read_archive(path)
